@@ -571,16 +571,15 @@ Definition read_le (bytes : list N) (ip : N) (n : nat) : option N :=
   then Some (le_to_N (firstn n (skipn (N.to_nat ip) bytes)))
   else None.
 
-Definition MAX_STR_LEN : N := 256.
-
 Inductive strres := StrOk (s : list N) | StrNone | StrPanic.
-(* read_str + decode_str on the data section. UTF-8 validity of the payload is not modelled (assumed valid). *)
+(* read_str + decode_str on the data section: `decode_str(program.get(p..)?)`, the string carries its own length
+   (the pinned tree looked at a window of MAX_STR_LEN = 256 bytes and rejected longer literals, A-23).
+   UTF-8 validity of the payload is not modelled (assumed valid). *)
 Definition read_str (p : N) (data : list N) : strres :=
   let dl := N.of_nat (length data) in
-  let limit := N.min dl (p + MAX_STR_LEN) in
-  if (limit <? p)%N then StrPanic                       (* &program[p..limit] with p > limit *)
+  if (dl <? p)%N then StrNone
   else
-    let avail := (limit - p)%N in
+    let avail := (dl - p)%N in
     if (avail <? 4)%N then StrNone
     else
       match read_le data p 4 with
